@@ -67,6 +67,9 @@ func init() {
 		`function scan(last) { foreach last in [7, 8, 9] { if (last == 8) { return last; } } return 0; } q = scan(1); last = q + A; hv(last); return last;`,
 		`foreach total in 1..3 { hv(total); if (total == A) { return total; } } total = 50; hv(total); return total;`,
 		`function f(n) { local acc; acc = 10 / n; return acc; } acc = 5; n = 2; r = f(B); hv(acc, n, r); return acc + n;`,
+		`hv("$S", $S, "$A", "S"); x = $A + A; if ($S == S) { hv("$x", x); } return "$S";`,
+		`function outer(v) { foreach a in [1, 2] { foreach b in [3, 4] { if (b == 4 && a == v) { return [a, b]; } } } return 0; } r = outer(A); foreach c in "xyz" { if (c == "y") { return c; } } return r;`,
+		`n = 0; foreach ch in "abcdef" { n++; if (ch == "c") { return n; } } return -1;`,
 	)
 }
 
@@ -313,8 +316,6 @@ func (p *c07) Run(c *verifsim.Chooser, st *Stats, render bool) *Outcome {
 		st.probe("prepare-failed")
 		return o
 	}
-	dump0, _, _ := doDump(L.e)
-	dump0 = normDump(dump0)
 
 	initKind := 0
 	nruns := len(runs)
@@ -467,10 +468,16 @@ func (p *c07) Run(c *verifsim.Chooser, st *Stats, render bool) *Outcome {
 			obs, detail = "stack", fmt.Sprintf("value-stack residue after the run: reused %d, fresh %d", L.e.VerifStack(), F.e.VerifStack())
 		}
 		if obs == "" {
+			// the prepared program as Dump prints it: the reused evaluator
+			// against the fresh one after the same run (not against the text
+			// right after Prepare: an engine may legitimately finish its
+			// preparation lazily during the first run)
 			d, _, _ := doDump(L.e)
 			d = normDump(d)
-			if d != dump0 {
-				m0, c0, f0 := dumpSections(dump0)
+			df, _, _ := doDump(F.e)
+			df = normDump(df)
+			if d != df {
+				m0, c0, f0 := dumpSections(df)
 				m1, c1, f1 := dumpSections(d)
 				switch {
 				case c0 != c1:
@@ -482,18 +489,20 @@ func (p *c07) Run(c *verifsim.Chooser, st *Stats, render bool) *Outcome {
 				default:
 					obs = "dump"
 				}
-				detail = "the prepared program, as Dump() prints it, is no longer what it was right after Prepare:\n" + firstDiff(dump0, d)
+				detail = "the prepared program, as Dump() prints it, differs between the reused evaluator and a fresh one after the same run (fresh -> reused):\n" + firstDiff(df, d)
 			}
 		}
-		if obs == "" && (i == 0 || i == nruns-1 || i%10 == 9) {
-			// what the reused evaluator holds on to, relative to the fresh one
+		if obs == "" && mode == 2 && (i == 19 || i == nruns-1) {
+			// what the reused evaluator holds on to, relative to the fresh
+			// one, once it has seen every object of the history several times
+			// (a cache per object type is legitimate; growth per run is not)
 			d := footprint(L.e) - footprint(F.e)
 			if !fpSet {
 				fp0, fpSet = d, true
 			} else if d-fp0 > c07FootprintSlack {
-				obs, detail = "footprint", fmt.Sprintf("after %d runs the reused evaluator holds %d more slice/map entries (relative to a fresh one) than after its first run", i+1, d-fp0)
+				obs, detail = "footprint", fmt.Sprintf("between run 20 and run %d of a history that keeps cycling through the same two objects the reused evaluator came to hold %d more slice/map entries (relative to a fresh one)", i+1, d-fp0)
 			}
-			st.max("footprint_growth_over_history", d-fp0)
+			st.max("footprint_growth_run20_to_run60", d-fp0)
 		}
 		if obs != "" {
 			if rf.Failed && (obs == "scopes" || obs == "stack" || strings.HasPrefix(obs, "dump") || obs == "scoped-name-visible") {
